@@ -127,7 +127,7 @@ Proof. destruct n; reflexivity. Qed.
 Lemma qn_attname (n : att_name) : qn (fst (attribute_name n)) (snd (attribute_name n)) = x_attname n.
 Proof. destruct n as [|s|[p l|x]]; reflexivity. Qed.
 
-Lemma lookup_name ents nm e d : lookup_entity2 ents nm = IOk (e, d) -> en_name e = nm.
+Lemma lookup2_name ents nm e d : lookup_entity2 ents nm = IOk (e, d) -> en_name e = nm.
 Proof.
   unfold lookup_entity2. destruct (find (fun e0 => str_eqb (en_name e0) nm) ents) as [e0|] eqn:Ef.
   - intros H. injection H as <- _. apply find_some in Ef. destruct Ef as [_ Ef]. now apply Proofs.Expansion.str_eqb_eq in Ef.
@@ -139,7 +139,37 @@ Qed.
 Lemma resolve_name ents ext a nm e : resolve_ref ents ext a nm = IOk e -> en_name e = nm.
 Proof.
   unfold resolve_ref. intros H. apply ibind_ok in H. destruct H as [[e0 d] [H1 H2]]. apply ibind_ok in H2. destruct H2 as [s [_ H2]].
-  cbn [fst] in H2. injection H2 as <-. eapply lookup_name. exact H1.
+  cbn [fst] in H2. injection H2 as <-. eapply lookup2_name. exact H1.
+Qed.
+
+(** ** trees on which the two sides are compared: no unexpanded reference (a reference to an external parsed entity is
+    not included), and at every element the condition [okattrs] on its name and attributes (no listed finding) *)
+Fixpoint tree_good (okattrs : str -> list (str * list W.avpiece) -> bool) (x : W.xcontent) : bool :=
+  match x with
+  | W.XEntRef _ => false
+  | W.XElem nm atts _ kids => okattrs nm atts && forallb (tree_good okattrs) kids
+  | W.XExp _ items => forallb (tree_good okattrs) items
+  | _ => true
+  end.
+
+Lemma tree_good_nu okattrs : forall x, tree_good okattrs x = true -> Infoset.no_unexp x = true.
+Proof.
+  apply (CV.xcontent_ind2 (fun x => tree_good okattrs x = true -> Infoset.no_unexp x = true)).
+  intros x Hk. destruct x as [c|s|n|nm|s|tg d|nm atts et kids|nm items]; cbn [tree_good Infoset.no_unexp]; intros H; try reflexivity; try discriminate H.
+  - apply andb_prop in H. destruct H as [_ H]. induction Hk as [|y kids Hy _ IH]; [reflexivity|]. cbn [forallb] in *. apply andb_prop in H. destruct H as [H1 H2].
+    rewrite (Hy H1), (IH H2). reflexivity.
+  - induction Hk as [|y items Hy _ IH]; [reflexivity|]. cbn [forallb] in *. apply andb_prop in H. destruct H as [H1 H2].
+    rewrite (Hy H1), (IH H2). reflexivity.
+Qed.
+
+Lemma tree_good_true : forall x, Infoset.no_unexp x = true -> tree_good (fun _ _ => true) x = true.
+Proof.
+  apply (CV.xcontent_ind2 (fun x => Infoset.no_unexp x = true -> tree_good (fun _ _ => true) x = true)).
+  intros x Hk. destruct x as [c|s|n|nm|s|tg d|nm atts et kids|nm items]; cbn [tree_good Infoset.no_unexp]; intros H; try reflexivity; try discriminate H.
+  - induction Hk as [|y kids Hy _ IH]; [reflexivity|]. cbn [forallb] in *. apply andb_prop in H. destruct H as [H1 H2].
+    rewrite (Hy H1). exact (IH H2).
+  - induction Hk as [|y items Hy _ IH]; [reflexivity|]. cbn [forallb] in *. apply andb_prop in H. destruct H as [H1 H2].
+    rewrite (Hy H1), (IH H2). reflexivity.
 Qed.
 
 (** ** the element tree *)
@@ -149,14 +179,18 @@ Variable ext : bool.
 Variable en : W.env.
 Variable fuel : nat.
 Variable sub : list W.decl.
+Variable okattrs : str -> list (str * list W.avpiece) -> bool.
 Notation ents := (ents_of dt).
+Notation good := (tree_good okattrs).
 
 Hypothesis Hcont : forall nm e, resolve_ref ents ext false nm = IOk e ->
-  exists x' v, W.expand fuel en [] (W.XEntRef nm) = inr x' /\ Info.expand ents nm = IOk v /\
-    (forall acc, Infoset.item_tokens fuel en sub x' acc = ([], rev v ++ acc)) /\
-    (forall st acc, item_tokens2 fuel en sub x' st acc = ([], (true, rev v ++ acc))).
+  exists x', W.expand fuel en [] (W.XEntRef nm) = inr x' /\
+    (Infoset.no_unexp x' = true -> exists v, Info.expand ents nm = IOk v /\
+       (forall acc, Infoset.item_tokens fuel en sub x' acc = ([], rev v ++ acc)) /\
+       (forall st acc, item_tokens2 fuel en sub x' st acc = ([], (true, rev v ++ acc)))).
 
 Hypothesis Hattrs : forall n attrs attrs', qname_ok n -> Forall p_attribute_ok' attrs -> build_attrs ents ext attrs = IOk attrs' ->
+  okattrs (d_qname n) (map x_att attrs) = true ->
   attr_rows dt (fst (qname_parts n)) (snd (qname_parts n)) attrs' = map KTok (Infoset.attr_tokens fuel en sub (d_qname n) (map x_att attrs)).
 
 Hypothesis Hexp_elem : forall nm atts et kids, W.expand fuel en [] (W.XElem nm atts et kids) =
@@ -256,45 +290,48 @@ Definition is_xelem (x : W.xcontent) : Prop := match x with W.XElem _ _ _ _ => T
 
 Definition elem_viewed (e : element) : Prop :=
   p_element_ok e -> forall el, build_element ents ext e = IOk el ->
-  exists x', W.expand fuel en [] (x_elem e) = inr x' /\ raw_rel [el] [x'] /\ mer_rel [el] [x'] /\ is_xelem x'.
+  exists x', W.expand fuel en [] (x_elem e) = inr x' /\ is_xelem x' /\
+    (good x' = true -> raw_rel [el] [x'] /\ mer_rel [el] [x']).
 
 Lemma cells_viewed (cells : list cell) : cells_all elem_viewed cells -> cells_ok p_element_ok cells ->
   forall ch, build_cells (build_element ents ext) ents ext cells = IOk ch ->
-  exists kids', W.mapM (W.expand fuel en []) (x_cells x_elem cells) = inr kids' /\ raw_rel ch kids' /\ mer_rel ch kids'.
+  exists kids', W.mapM (W.expand fuel en []) (x_cells x_elem cells) = inr kids' /\
+    (forallb good kids' = true -> raw_rel ch kids' /\ mer_rel ch kids').
 Proof.
   induction 1 as [|[c tl] l Hc _ IH]; intros Hok ch Hb.
-  - cbn [build_cells] in Hb. injection Hb as <-. exists []. split; [reflexivity|]. split; [apply raw_rel_nil|apply mer_rel_nil].
+  - cbn [build_cells] in Hb. injection Hb as <-. exists []. split; [reflexivity|]. intros _. split; [apply raw_rel_nil|apply mer_rel_nil].
   - cbn [cells_ok] in Hok. destruct Hok as [Hc_ok [_ Hl_ok]]. cbn [build_cells] in Hb.
     apply ibind_ok in Hb. destruct Hb as [it [Hit Hb]]. apply ibind_ok in Hb. destruct Hb as [r [Hr Hb]]. injection Hb as <-.
-    destruct (IH Hl_ok r Hr) as (kl & Ekl & Rkl & Mkl).
+    destruct (IH Hl_ok r Hr) as (kl & Ekl & RMkl).
     assert (Et : W.mapM (W.expand fuel en []) (x_text tl) = inr (x_text tl)).
     { apply mapM_id. intros x Hx. destruct tl as [t|]; [|destruct Hx]. apply in_map_iff in Hx. destruct Hx as [c0 [<- _]]. apply Hexp_leaf. exact I. }
-    assert (exists x', W.expand fuel en [] (x_contents x_elem c) = inr x' /\ raw_rel [it] [x'] /\ mer_rel [it] [x']) as (x' & Ex & Rx & Mx).
+    assert (exists x', W.expand fuel en [] (x_contents x_elem c) = inr x' /\ (good x' = true -> raw_rel [it] [x'] /\ mer_rel [it] [x'])) as (x' & Ex & RMx).
     { cbn [fst] in Hc. destruct c as [e'|[num rd|n]|s|p|s]; cbn [build_child x_contents contents_ok] in *.
-      - destruct (Hc Hc_ok it Hit) as (x0 & E0 & R0 & M0 & _). exists x0. auto.
+      - destruct (Hc Hc_ok it Hit) as (x0 & E0 & _ & RM0). exists x0. auto.
       - apply ibind_ok in Hit. destruct Hit as [c0 [Hc0 Hit]]. injection Hit as <-. destruct (char_from_spec _ _ _ Hc_ok Hc0) as [E Hch].
-        exists (W.XCharRef c0). split; [|split].
+        exists (W.XCharRef c0). split; [|intros _; split].
         + unfold x_refitem. destruct rd; cbn [x_ref radix_n] in *; rewrite E; apply Hexp_leaf; exact I.
         + apply (raw_chars _ _ [c0]); intros acc; reflexivity.
         + apply (mer_chars _ _ [c0]); [intros st acc; reflexivity|reflexivity].
       - apply ibind_ok in Hit. destruct Hit as [e0 [He0 Hit]]. injection Hit as <-.
-        destruct (Hcont n e0 He0) as (x0 & v & E1 & E2 & T1 & T2). pose proof (resolve_name _ _ _ _ _ He0) as Hn.
-        exists x0. split; [unfold x_refitem; cbn [x_ref]; exact E1|]. split.
+        destruct (Hcont n e0 He0) as (x0 & E1 & P0). pose proof (resolve_name _ _ _ _ _ He0) as Hn.
+        exists x0. split; [unfold x_refitem; cbn [x_ref]; exact E1|]. intros Hnu. destruct (P0 (tree_good_nu _ _ Hnu)) as (v & E2 & T1 & T2). split.
         + apply (raw_chars _ _ v); [exact T1|]. intros acc. cbn [item_dump mr]. rewrite Hn, E2. reflexivity.
         + apply (mer_chars _ _ v); [exact T2|]. cbn [run_data]. rewrite Hn, E2. reflexivity.
-      - injection Hit as <-. exists (W.XCData s). split; [apply Hexp_leaf; exact I|]. split.
+      - injection Hit as <-. exists (W.XCData s). split; [apply Hexp_leaf; exact I|]. intros _. split.
         + apply (raw_chars _ _ s); intros acc; reflexivity.
         + apply (mer_chars _ _ s); [intros st acc; reflexivity|reflexivity].
-      - injection Hit as <-. exists (x_pi p). split; [apply Hexp_leaf; exact I|]. split.
+      - injection Hit as <-. exists (x_pi p). split; [apply Hexp_leaf; exact I|]. intros _. split.
         + apply (raw_mark _ _ (Infoset.TPI (pi_target p) (Infoset.opt_str (pi_value p)))); [intros acc; reflexivity| |reflexivity].
           cbn [item_dump]. unfold pi_token, Infoset.opt_str. reflexivity.
         + apply (mer_mark _ _ (Infoset.TPI (pi_target p) (Infoset.opt_str (pi_value p)))); [intros st acc; reflexivity| |reflexivity].
           cbn [item_dump]. unfold pi_token, Infoset.opt_str. reflexivity.
-      - injection Hit as <-. exists (W.XComment s). split; [apply Hexp_leaf; exact I|]. split.
+      - injection Hit as <-. exists (W.XComment s). split; [apply Hexp_leaf; exact I|]. intros _. split.
         + apply (raw_mark _ _ (Infoset.TComment s)); [intros acc; reflexivity|reflexivity|reflexivity].
         + apply (mer_mark _ _ (Infoset.TComment s)); [intros st acc; reflexivity|reflexivity|reflexivity]. }
-    cbn [x_cells]. exists (x' :: x_text tl ++ kl). split; [|split].
-    + cbn [W.mapM]. rewrite Ex. rewrite (mapM_app _ _ _ _ _ Et Ekl). reflexivity.
+    cbn [x_cells]. exists (x' :: x_text tl ++ kl). split; [cbn [W.mapM]; rewrite Ex; rewrite (mapM_app _ _ _ _ _ Et Ekl); reflexivity|].
+    intros Hnu. cbn [forallb] in Hnu. apply andb_prop in Hnu. destruct Hnu as [Hnx Hnu]. rewrite forallb_app in Hnu. apply andb_prop in Hnu. destruct Hnu as [_ Hnk].
+    destruct (RMx Hnx) as [Rx Mx]. destruct (RMkl Hnk) as [Rkl Mkl]. split.
     + change (it :: text_item tl ++ r) with ([it] ++ text_item tl ++ r). change (x' :: x_text tl ++ kl) with ([x'] ++ x_text tl ++ kl).
       apply raw_rel_app; [exact Rx|]. apply raw_rel_app; [apply raw_text|exact Rkl].
     + change (it :: text_item tl ++ r) with ([it] ++ text_item tl ++ r). change (x' :: x_text tl ++ kl) with ([x'] ++ x_text tl ++ kl).
@@ -303,11 +340,11 @@ Qed.
 
 (** an element with built children [ch] against the specification's element with the expanded children [kl] *)
 Lemma elem_rel n a attrs' (ch : list item) et (kl : list W.xcontent) : qname_ok n -> Forall p_attribute_ok' a -> build_attrs ents ext a = IOk attrs' ->
-  raw_rel ch kl -> mer_rel ch kl ->
+  okattrs (d_qname n) (map x_att a) = true -> raw_rel ch kl -> mer_rel ch kl ->
   raw_rel [ItElement (fst (qname_parts n)) (snd (qname_parts n)) attrs' ch] [W.XElem (d_qname n) (map x_att a) et kl]
   /\ mer_rel [ItElement (fst (qname_parts n)) (snd (qname_parts n)) attrs' ch] [W.XElem (d_qname n) (map x_att a) et kl].
 Proof.
-  intros Hq Ha Hat Rk Mk. pose proof (Hattrs n a attrs' Hq Ha Hat) as Hrows. split.
+  intros Hq Ha Hat Hokat Rk Mk. pose proof (Hattrs n a attrs' Hq Ha Hat Hokat) as Hrows. split.
   - intros acc. cbn [kids_raw items_tokens]. rewrite app_nil_r, item_dump_elem_raw, item_tokens_elem, Hrows, qn_qname.
     rewrite mr_mark by reflexivity. rewrite mr_app, (mr_marks _ (attr_tokens_marks _ _ _ _ _)), map_plain_KTok, mr_app.
     destruct (Rk None) as (a1 & E1 & E2). cbn [ostr rev] in E1, E2. rewrite E1.
@@ -325,17 +362,72 @@ Theorem element_viewed : forall e, elem_viewed e.
 Proof.
   apply element_ind2.
   - intros n a [Hq [Ha _]] el Hb. cbn [build_element] in Hb. apply ibind_ok in Hb. destruct Hb as [attrs' [Hat Hb]]. injection Hb as <-.
-    cbn [x_elem]. rewrite Hexp_elem. cbn [W.mapM]. eexists. split; [reflexivity|].
-    destruct (elem_rel n a attrs' [] None [] Hq Ha Hat raw_rel_nil mer_rel_nil) as [R M]. split; [exact R|]. split; [exact M|exact I].
+    cbn [x_elem]. rewrite Hexp_elem. cbn [W.mapM]. eexists. split; [reflexivity|]. split; [exact I|]. intros Hg.
+    cbn [tree_good] in Hg. apply andb_prop in Hg. destruct Hg as [Hg _].
+    exact (elem_rel n a attrs' [] None [] Hq Ha Hat Hg raw_rel_nil mer_rel_nil).
   - intros n a h cells Hcells [Hq [Ha [Hh Hcs]]] el Hb. cbn [build_element] in Hb.
     apply ibind_ok in Hb. destruct Hb as [attrs' [Hat Hb]]. apply ibind_ok in Hb. destruct Hb as [ch [Hch Hb]]. injection Hb as <-.
-    destruct (cells_viewed cells Hcells Hcs ch Hch) as (kl & Ekl & Rkl & Mkl).
+    destruct (cells_viewed cells Hcells Hcs ch Hch) as (kl & Ekl & RMkl).
     assert (Et : W.mapM (W.expand fuel en []) (x_text h) = inr (x_text h)).
     { apply mapM_id. intros x Hx. destruct h as [t|]; [|destruct Hx]. apply in_map_iff in Hx. destruct Hx as [c0 [<- _]]. apply Hexp_leaf. exact I. }
-    cbn [x_elem]. rewrite Hexp_elem. rewrite (mapM_app _ _ _ _ _ Et Ekl). eexists. split; [reflexivity|].
-    destruct (elem_rel n a attrs' (text_item h ++ ch) (Some (d_qname n)) (x_text h ++ kl) Hq Ha Hat) as [R M].
+    cbn [x_elem]. rewrite Hexp_elem. rewrite (mapM_app _ _ _ _ _ Et Ekl). eexists. split; [reflexivity|]. split; [exact I|].
+    intros Hnu. cbn [tree_good] in Hnu. apply andb_prop in Hnu. destruct Hnu as [Hg Hnu]. rewrite forallb_app in Hnu. apply andb_prop in Hnu. destruct Hnu as [_ Hnk]. destruct (RMkl Hnk) as [Rkl Mkl].
+    apply (elem_rel n a attrs' (text_item h ++ ch) (Some (d_qname n)) (x_text h ++ kl) Hq Ha Hat Hg).
     + apply raw_rel_app; [apply raw_text|exact Rkl].
     + apply mer_rel_app; [apply mer_text|exact Mkl].
-    + split; [exact R|]. split; [exact M|exact I].
 Qed.
 End Elems.
+
+(** ** when every resolved reference is included, the expanded tree has no unexpanded reference *)
+Section NoUnexp.
+Variable ents : list entity.
+Variable ext : bool.
+Variable en : W.env.
+Variable fuel : nat.
+Hypothesis Hnu : forall nm e, resolve_ref ents ext false nm = IOk e -> forall x', W.expand fuel en [] (W.XEntRef nm) = inr x' -> Infoset.no_unexp x' = true.
+Hypothesis Hexp_elem : forall nm atts et kids, W.expand fuel en [] (W.XElem nm atts et kids) =
+  match W.mapM (W.expand fuel en []) kids with inl r => inl r | inr kids' => inr (W.XElem nm atts et kids') end.
+Hypothesis Hexp_leaf : forall x, match x with W.XElem _ _ _ _ | W.XEntRef _ | W.XExp _ _ => False | _ => True end ->
+  W.expand fuel en [] x = inr x.
+
+Definition elem_nu (e : element) : Prop :=
+  p_element_ok e -> forall el, build_element ents ext e = IOk el -> forall x', W.expand fuel en [] (x_elem e) = inr x' -> Infoset.no_unexp x' = true.
+
+Lemma text_nu (o : option str) kids' : W.mapM (W.expand fuel en []) (x_text o) = inr kids' -> forallb Infoset.no_unexp kids' = true.
+Proof.
+  intros H. assert (E : W.mapM (W.expand fuel en []) (x_text o) = inr (x_text o)).
+  { apply mapM_id. intros x Hx. destruct o as [t|]; [|destruct Hx]. apply in_map_iff in Hx. destruct Hx as [c0 [<- _]]. apply Hexp_leaf. exact I. }
+  rewrite E in H. injection H as <-. clear E. destruct o as [t|]; [|reflexivity]. cbn [x_text]. induction t as [|c t IH]; [reflexivity|exact IH].
+Qed.
+
+Lemma cells_nu (cells : list cell) : cells_all elem_nu cells -> cells_ok p_element_ok cells ->
+  forall ch, build_cells (build_element ents ext) ents ext cells = IOk ch ->
+  forall kids', W.mapM (W.expand fuel en []) (x_cells x_elem cells) = inr kids' -> forallb Infoset.no_unexp kids' = true.
+Proof.
+  induction 1 as [|[c tl] l Hc _ IH]; intros Hok ch Hb kids' Hm.
+  - cbn [x_cells W.mapM] in Hm. injection Hm as <-. reflexivity.
+  - cbn [cells_ok] in Hok. destruct Hok as [Hc_ok [_ Hl_ok]]. cbn [build_cells] in Hb.
+    apply ibind_ok in Hb. destruct Hb as [it [Hit Hb]]. apply ibind_ok in Hb. destruct Hb as [r [Hr _]].
+    cbn [x_cells] in Hm. apply CV.mapM_cons_inv in Hm. destruct Hm as (y & ys & Ey & Eys & ->).
+    apply CV.mapM_app_inv in Eys. destruct Eys as (yt & yl & Et & El & ->).
+    cbn [forallb]. rewrite forallb_app, (text_nu tl yt Et), (IH Hl_ok r Hr yl El), !andb_true_r.
+    cbn [fst] in Hc. destruct c as [e'|[num rd|n]|s|p|s]; cbn [build_child x_contents contents_ok] in *.
+    + exact (Hc Hc_ok it Hit y Ey).
+    + unfold x_refitem in Ey. destruct rd; cbn [x_ref] in Ey; rewrite Hexp_leaf in Ey by exact I; injection Ey as <-; reflexivity.
+    + apply ibind_ok in Hit. destruct Hit as [e0 [He0 _]]. unfold x_refitem in Ey. cbn [x_ref] in Ey. exact (Hnu n e0 He0 y Ey).
+    + rewrite Hexp_leaf in Ey by exact I. injection Ey as <-. reflexivity.
+    + unfold x_pi in Ey. rewrite Hexp_leaf in Ey by exact I. injection Ey as <-. reflexivity.
+    + rewrite Hexp_leaf in Ey by exact I. injection Ey as <-. reflexivity.
+Qed.
+
+Theorem element_no_unexp : forall e, elem_nu e.
+Proof.
+  apply element_ind2.
+  - intros n a _ el _ x' Hx. cbn [x_elem] in Hx. rewrite Hexp_elem in Hx. cbn [W.mapM] in Hx. injection Hx as <-. reflexivity.
+  - intros n a h cells Hcells [_ [_ [_ Hcs]]] el Hb x' Hx. cbn [build_element] in Hb.
+    apply ibind_ok in Hb. destruct Hb as [attrs' [_ Hb]]. apply ibind_ok in Hb. destruct Hb as [ch [Hch _]].
+    cbn [x_elem] in Hx. rewrite Hexp_elem in Hx. destruct (W.mapM (W.expand fuel en []) (x_text h ++ x_cells x_elem cells)) as [r|kids'] eqn:Ek; [discriminate|].
+    injection Hx as <-. cbn [Infoset.no_unexp]. apply CV.mapM_app_inv in Ek. destruct Ek as (yt & yl & Et & El & ->).
+    rewrite forallb_app, (text_nu h yt Et), (cells_nu cells Hcells Hcs ch Hch yl El). reflexivity.
+Qed.
+End NoUnexp.
